@@ -31,3 +31,9 @@ CLAIMED['C19'] = (
 CLAIMED['C09'] = (
     'CrossHair+z3 shape-symbolic exploration: dependency/granularity/feedback matrices as z3 selectors, real dag.Construct run on each generated engine and compared with the declarations',
     'Every engine within the stated size/granularity bound is covered (solver-exhausted matrices); nothing is claimed for larger engines.', _BASE_NOTE, 'DESIGN.md section 5 C09')
+_STORE = 'bounded-history symbolic exploration of the real shelve back end with CrossHair+z3 (operation sequence = z3 selectors, exhausted within the bound) against a reference dictionary'
+CLAIMED['C06'] = (_STORE, _SCHED_TXT, _BASE_NOTE + ' PostgreSQL back end not executed.', 'DESIGN.md section 4 C06')
+CLAIMED['C07'] = (_STORE + '; invariant evaluated after every file-system/table step (all crash points)', _SCHED_TXT, _BASE_NOTE, 'DESIGN.md section 4 C07')
+CLAIMED['C08'] = (
+    'AST->SMT (z3 strings) of shelve.util.construct and the subset selection predicate for all names within the length bound; CrossHair+z3 for the construct/dissect round trip on symbolic names; solver-enumerated histories on real shelve files',
+    'Selection lemma: unsat for all name pairs within the length bound (translator validated on every run); histories bounded.', _BASE_NOTE, 'DESIGN.md section 4 C08')
